@@ -30,14 +30,14 @@ SHIELD = {"engines": [chain("shield", 128, 1280, ops=160, tops=240)],
                           "only the bond denomination is used for shield, fees and losses", "genesis LastUpdateTime is the chain's start time (DefaultGenesisState stamps the wall clock)"]}
 
 PROPS = {
-    "C02": dict(SHIELD, lean=["Shentu.Props.C02"]),
-    "C03": dict(SHIELD, lean=["Shentu.Props.C03a", "Shentu.Props.C03b"]),
-    "C04": dict(SHIELD, lean=["Shentu.Props.C04"], assumptions=SHIELD["assumptions"] + [
+    "C02": dict(SHIELD, lean=["Shentu.Props.C02", "Shentu.Props.ShieldTie"]),
+    "C03": dict(SHIELD, lean=["Shentu.Props.C03a", "Shentu.Props.C03b", "Shentu.Props.ShieldTie"]),
+    "C04": dict(SHIELD, lean=["Shentu.Props.C04", "Shentu.Props.ShieldTie"], assumptions=SHIELD["assumptions"] + [
         "'taken from its bonded or unbonding stake' is observed on the real application (the coins arrive from the staking pools), the model moves them from the bonded pool only"]),
-    "C05": dict(SHIELD, lean=["Shentu.Props.C05"]),
-    "C06": dict(SHIELD, lean=["Shentu.Props.C06"], assumptions=SHIELD["assumptions"] + [
+    "C05": dict(SHIELD, lean=["Shentu.Props.C05", "Shentu.Props.ShieldTie"]),
+    "C06": dict(SHIELD, lean=["Shentu.Props.C06", "Shentu.Props.ShieldTie"], assumptions=SHIELD["assumptions"] + [
         "the converse (a funded purchase meeting the conditions is accepted) is proved for purchases whose fee or stake does not truncate to zero (amount x rate >= 1 unit); with the default minimum purchase of 50 CTK this always holds; below it the module answers ErrNoShield"]),
-    "C07": dict(SHIELD, lean=["Shentu.Props.C07"]),
+    "C07": dict(SHIELD, lean=["Shentu.Props.C07", "Shentu.Props.ShieldTie"]),
     "C09": {
         "lean": ["Shentu.Props.C09"],
         "engines": [chain("staking", 128, 1280, ops=150, tops=250), chain("shield", 32, 320, ops=160)],
